@@ -177,6 +177,8 @@ pub fn run(ctx: &Ctx) -> Report {
     bad.sort_unstable();
     // the same computation in the dev profile (debug assertions and overflow checks inside calculate_scopes)
     dev_pass(ctx, &mut report);
+    // the example program itself, as a process, with 1..15 workers
+    example_program_runs(ctx, &mut report);
     // end to end
     let configs = e2e_configs();
     let mut e2e_ns: Vec<u32> = (1..=64).collect();
@@ -223,6 +225,102 @@ pub fn run(ctx: &Ctx) -> Report {
     report.assumptions.push("'all n >= 1' is cut at 2^24+3 (quick) / 2^25 (thorough): every n of the stated interval, 65 seeded n up to 2^22, four n around 2^24 where the worker index stops being exact in f32".into());
     report.assumptions.push("end-to-end workers run sequentially here; what threads add is C15's subject".into());
     report
+}
+
+/// The real example program, run as a process under `taskset` so that it sees 2..16 CPUs (it uses the CPU
+/// count minus one as its worker count): its "materialized" total and its per-hand equities must equal what a
+/// single evaluator gives. This observes main.rs itself (thread spawning, joining, adding up), not a re-implementation.
+fn example_program_runs(_ctx: &Ctx, report: &mut Report) {
+    use crate::child::run_cmd;
+    let repo = std::env::var("VERIF_REPO").unwrap_or_else(|_| "/repo".to_string());
+    let target = format!("{}/target", repo);
+    let skipped = |report: &mut Report, why: String| {
+        println!("ENGINE-SKIPPED property=C16 engine=example-program reason={}", why);
+        report.set("example_program", Json::str(format!("skipped: {}", why)));
+    };
+    let build = run_cmd(
+        "cargo",
+        &["build".into(), "--offline".into(), "--example".into(), "multi-thread".into()],
+        &[("CARGO_TARGET_DIR".to_string(), target.clone()), ("CARGO_NET_OFFLINE".to_string(), "true".to_string())],
+        Some(std::path::Path::new(&repo)),
+        std::time::Duration::from_secs(900),
+    );
+    match build {
+        Ok(r) if r.code == Some(0) => {}
+        Ok(r) => return skipped(report, format!("the example does not build (code {:?}): {}", r.code, r.stderr.lines().rev().take(3).collect::<Vec<_>>().join(" | "))),
+        Err(e) => return skipped(report, e),
+    }
+    let exe = format!("{}/debug/examples/multi-thread", target);
+    let inputs: [(&str, Vec<&str>); 2] = [("2h2d2c", vec!["4s3h,5s5h", "4d3c,AsKs:0.5"]), ("Kh7d7c", vec!["AsAh,2d2c,KsQs", "AdAc,2s2h,As2c:0.25", "JJ"])];
+    for (board, ranges) in inputs.iter() {
+        // expected, from one unscoped evaluator over the same inputs
+        let flop_ids = parse_cards_text(board).unwrap();
+        let case = EnumCase::parsed("example", [flop_ids[0], flop_ids[1], flop_ids[2]], ranges);
+        let (hr, cfg) = match case.build() {
+            Ok(v) => v,
+            Err(_) => continue,
+        };
+        let mut expected: std::collections::BTreeMap<(usize, String), (f64, u64)> = std::collections::BTreeMap::new();
+        let mut total = 0u64;
+        let single = catch(|| {
+            for sd in drive::evaluator(&cfg, &hr, None) {
+                total += 1;
+                for (i, p) in sd.players().iter().enumerate() {
+                    let e = expected.entry((i, p.hole_cards().to_string())).or_insert((0.0, 0));
+                    e.1 += 1;
+                    if p.is_winner() {
+                        e.0 += 1.0 / sd.winner_len() as f64 * sd.probability() as f64;
+                    }
+                }
+            }
+        });
+        if single.is_err() {
+            continue;
+        }
+        let mut want: Vec<(String, f64)> = expected.iter().map(|((_, cards), (w, m))| (cards.clone(), w / *m as f64 * 100.0)).collect();
+        want.sort_by(|a, b| a.0.cmp(&b.0).then(a.1.partial_cmp(&b.1).unwrap()));
+        for cpus in [2usize, 3, 4, 5, 6, 9, 12, 16] {
+            if cpus > crate::util::threads().max(2) {
+                continue;
+            }
+            let mut args: Vec<String> = vec!["-c".into(), format!("0-{}", cpus - 1), exe.clone(), board.to_string()];
+            args.extend(ranges.iter().map(|r| r.to_string()));
+            report.evaluations += 1;
+            report.count("example_program_runs", 1);
+            let r = match run_cmd("taskset", &args, &[], None, std::time::Duration::from_secs(300)) {
+                Ok(r) => r,
+                Err(e) => return skipped(report, e),
+            };
+            let case_json = Json::obj().set("kind", Json::str("example-program")).set("cpus", Json::Int(cpus as i128)).set("board", Json::str(*board)).set("ranges", Json::strs(ranges.iter().map(|s| s.to_string())));
+            if r.code != Some(0) {
+                report.violate(format!("example:{}:cpus={}:exit", board, cpus), format!("the multi-thread example with {} CPUs ({} workers) on {} {:?} ended with code {:?}: {}", cpus, cpus - 1, board, ranges, r.code, r.stderr.lines().rev().take(2).collect::<Vec<_>>().join(" | ")), case_json);
+                continue;
+            }
+            let materialized: Option<u64> = r.stdout.lines().find_map(|l| l.strip_prefix("materialized: ")).and_then(|l| l.split_whitespace().next()).and_then(|n| n.parse().ok());
+            let mut got: Vec<(String, f64)> = r
+                .stdout
+                .lines()
+                .filter_map(|l| {
+                    let (cards, pct) = l.split_once(": ")?;
+                    let pct = pct.strip_suffix('%')?;
+                    if cards.len() == 4 {
+                        Some((cards.to_string(), pct.parse::<f64>().ok()?))
+                    } else {
+                        None
+                    }
+                })
+                .collect();
+            got.sort_by(|a, b| a.0.cmp(&b.0).then(a.1.partial_cmp(&b.1).unwrap()));
+            let same = got.len() == want.len() && got.iter().zip(want.iter()).all(|(g, w)| g.0 == w.0 && (g.1 - w.1).abs() <= 0.0021);
+            if materialized != Some(total) || !same {
+                report.violate(
+                    format!("example:{}:cpus={}", board, cpus),
+                    format!("the multi-thread example with {} CPUs ({} workers) on {} {:?} reports materialized {:?} and {} equity lines; one evaluator gives {} showdowns and {} lines (first lines {:?} vs {:?})", cpus, cpus - 1, board, ranges, materialized, got.len(), total, want.len(), got.iter().take(2).collect::<Vec<_>>(), want.iter().take(2).collect::<Vec<_>>()),
+                    case_json,
+                );
+            }
+        }
+    }
 }
 
 /// Dev-profile batch: small n exhaustively, then the large ones, shard `part` of `parts`.
